@@ -3,7 +3,7 @@ From Coq Require Import String ZifyN ZifyBool ZifyNat Permutation.
 From Slock Require Import Engine.Types Engine.Queues Engine.Timers Engine.Engine Engine.Engine2 Engine.InvDef Engine.InvBase.
 Open Scope N_scope.
 
-Ltac gs := cbn [g_xt g_xe g_pend g_owe g_ph g_pre g_dk g_lk g_dl g_cl g_cw set eta_ghost] in *.
+Ltac gs := cbn [g_xt g_xe g_pend g_owe g_ph g_pre g_dk g_lk g_pw g_dl g_cl g_cw set eta_ghost] in *.
 
 Definition liveb (l : lockrec) : Z := if l_timeouted l then 0%Z else 1%Z.
 
@@ -44,7 +44,7 @@ Proof. unfold lkk. intros -> ->. reflexivity. Qed.
 (* ---------------------------------------------------------------- master lemma: one record is rewritten *)
 Lemma setl_ginv s g g' r l l' :
   GInv s g -> aget (store s) r = Some l -> l_key l' = l_key l ->
-  g_dk g' = g_dk g -> g_lk g' = g_lk g -> g_cl g' = g_cl g ->
+  g_dk g' = g_dk g -> g_lk g' = g_lk g -> g_pw g' = g_pw g -> g_cl g' = g_cl g ->
   (forall r0, r0 <> r -> occ r0 (g_xt g') = occ r0 (g_xt g) /\ occ r0 (g_xe g') = occ r0 (g_xe g)
                          /\ occ r0 (g_ph g') = occ r0 (g_ph g)
                          /\ occ r0 (g_owe g') = occ r0 (g_owe g) /\ occ r0 (g_pre g') = occ r0 (g_pre g)
@@ -55,12 +55,12 @@ Lemma setl_ginv s g g' r l l' :
                        else 0))%Z ->
   ((l_key l =? g_dk g) = false -> occ r (holders (getm s (l_key l))) = O \/ l_locked l' = l_locked l) ->
   (lkk g (l_key l) = false -> 0 < l_locked l -> 0 < l_locked l' /\ c_lockid (l_cmd l') = c_lockid (l_cmd l)) ->
-  (In r (g_ph g') -> l_locked l' = 0) ->
-  (occ r (g_ph g') <= occ r (holders (getm s (g_dk g)) ++ m_wq (getm s (g_dk g))))%nat ->
+  (In r (g_ph g') -> (g_pw g = false -> l_locked l' = 0) /\ l_timeouted l' = true) ->
+  (occ r (g_ph g') <= occ r (phl s g))%nat ->
   (g_cw g' = g_cw g + liveb l' - liveb l)%Z ->
   GInv (setl s r l') g'.
 Proof.
-  intros G Hr Hk Hdk Hlk Hcl Hoth Hrec Hdl Hdl2 Hcur Hphz Hphle Hcw.
+  intros G Hr Hk Hdk Hlk Hpw Hcl Hoth Hrec Hdl Hdl2 Hcur Hphz Hphle Hcw.
   assert (Hgl : forall x, x <> r -> getl (setl s r l') x = getl s x).
   { intros x Hx. rewrite getl_setl. destruct (r =? x) eqn:E; auto. apply N.eqb_eq in E. congruence. }
   assert (Hglr : getl (setl s r l') r = l') by (rewrite getl_setl, N.eqb_refl; auto).
@@ -83,7 +83,7 @@ Proof.
       unfold tcount, ecount in *. rewrite <- O1, <- O2, <- O3, <- O4, <- O5 in *.
       constructor; auto.
   - intros k m Hm. change (mgrs (setl s r l')) with (mgrs s) in Hm.
-    destruct (gi_mgr _ _ G k m Hm) as [B1 B2 B3 B4 B5 B6 B7 B8 B9 Bb B10].
+    destruct (gi_mgr _ _ G k m Hm) as [B1 B2 B3 B4 B5 B6 B7 B8 B9 Bb B10 Bc].
     constructor; auto.
     + intros r0 H0. rewrite store_setl, aget_aset. destruct (r =? r0) eqn:E; [discriminate|].
       apply N.eqb_neq in E. apply B1. rewrite <- Hphk by congruence. auto.
@@ -120,11 +120,11 @@ Proof.
   - intros r0 H0. rewrite store_setl, aget_aset in H0. destruct (r =? r0) eqn:E; [discriminate|]. apply N.eqb_neq in E.
     pose proof (gi_str _ _ G r0 H0) as S0. unfold tcount, ecount in *.
     destruct (Hoth r0 (not_eq_sym E)) as [O1 [O2 _]]. rewrite O1, O2. exact S0.
-  - intros r0 H0. destruct (N.eq_dec r0 r) as [Ec|Ec].
+  - intros r0 H0. rewrite Hpw. destruct (N.eq_dec r0 r) as [Ec|Ec].
     + subst r0. rewrite Hglr. auto.
     + rewrite Hgl; auto. apply (gi_ph _ _ G). apply occ_In. apply occ_In in H0.
       destruct (Hoth r0 Ec) as [_ [_ [O3 _]]]. lia.
-  - intros r0. rewrite Hdk. change (getm (setl s r l') (g_dk g)) with (getm s (g_dk g)).
+  - intros r0. assert (Hpl : phl (setl s r l') g' = phl s g) by (unfold phl; rewrite Hpw, Hdk; reflexivity). rewrite Hpl.
     destruct (N.eq_dec r0 r) as [Ec|Ec]; [subst; auto|].
     destruct (Hoth r0 Ec) as [_ [_ [O3 _]]]. rewrite O3. apply (gi_phle _ _ G).
   - change (cnt (setl s r l')) with (cnt s). change (mgrs (setl s r l')) with (mgrs s). rewrite Hcl. apply (gi_nlocked _ _ G).
@@ -148,7 +148,7 @@ Lemma setm_ginv s g g' k m m' :
   GInv s g -> aget (mgrs s) k = Some m ->
   g_xt g' = g_xt g -> g_xe g' = g_xe g -> g_pend g' = g_pend g -> g_owe g' = g_owe g -> g_dk g' = g_dk g ->
   g_cw g' = g_cw g ->
-  (k <> g_dk g -> g_ph g' = g_ph g /\ g_pre g' = g_pre g /\ g_lk g' = g_lk g /\ g_dl g' = g_dl g) ->
+  (k <> g_dk g -> g_ph g' = g_ph g /\ g_pre g' = g_pre g /\ g_lk g' = g_lk g /\ g_dl g' = g_dl g /\ g_pw g' = g_pw g) ->
   mgr_ok (setm s k m') g' k m' ->
   (forall r0 l0, aget (store s) r0 = Some l0 -> l_key l0 = k ->
      (occ r0 (holders m') + occ r0 (m_wq m') + occ r0 (g_pre g') + occ r0 (g_ph g)
@@ -159,8 +159,8 @@ Lemma setm_ginv s g g' k m m' :
      (occ r0 (g_pre g') + occ r0 (g_ph g) = occ r0 (g_pre g) + occ r0 (g_ph g'))%nat
      /\ (occ r0 (g_pre g') = O -> occ r0 (g_pre g) = O)) ->
   (g_cl g' = g_cl g + Z.of_N (m_locked m') - Z.of_N (m_locked m))%Z ->
-  (forall r0, In r0 (g_ph g') -> l_locked (getl s r0) = 0) ->
-  (k = g_dk g -> forall r0, (occ r0 (g_ph g') <= occ r0 (holders m' ++ m_wq m'))%nat) ->
+  (forall r0, In r0 (g_ph g') -> (g_pw g' = false -> l_locked (getl s r0) = 0) /\ l_timeouted (getl s r0) = true) ->
+  (k = g_dk g -> forall r0, (occ r0 (g_ph g') <= occ r0 (if g_pw g' then m_wq m' else holders m'))%nat) ->
   GInv (setm s k m') g'.
 Proof.
   intros G Hm Hxt Hxe Hpend Howe Hdk Hcw Hne Hmo Hsame Hoth Hcl Hphz Hphle.
@@ -192,13 +192,13 @@ Proof.
   - intros k0 m0 H0. rewrite mgrs_setm, aget_aset in H0. destruct (k =? k0) eqn:E.
     + apply N.eqb_eq in E; subst k0. inversion H0; subst m0. exact Hmo.
     + apply N.eqb_neq in E.
-      destruct (gi_mgr _ _ G k0 m0 H0) as [B1 B2 B3 B4 B5 B6 B7 B8 B9 Bb B10].
+      destruct (gi_mgr _ _ G k0 m0 H0) as [B1 B2 B3 B4 B5 B6 B7 B8 B9 Bb B10 Bc].
       assert (P1 : phk g' k0 = phk g k0).
       { unfold phk. rewrite Hdk. destruct (k0 =? g_dk g) eqn:E2; auto. apply N.eqb_eq in E2.
         destruct Hne as [-> _]; congruence. }
       assert (P2 : dlk g' k0 = dlk g k0).
       { unfold dlk. rewrite Hdk. destruct (k0 =? g_dk g) eqn:E2; auto. apply N.eqb_eq in E2.
-        destruct Hne as [_ [_ [_ ->]]]; congruence. }
+        destruct Hne as [_ [_ [_ [-> _]]]]; congruence. }
       assert (P3 : lkk g' k0 = lkk g k0).
       { unfold lkk. rewrite Hdk. destruct (k0 =? g_dk g) eqn:E2; auto. apply N.eqb_eq in E2.
         destruct Hne as [_ [_ [-> _]]]; congruence. }
@@ -206,9 +206,9 @@ Proof.
   - intros r0 H0. change (store (setm s k m')) with (store s) in H0.
     pose proof (gi_str _ _ G r0 H0) as S0. unfold tcount, ecount in *. rewrite Hxt, Hxe. exact S0.
   - intros r0 H0. change (getl (setm s k m') r0) with (getl s r0). auto.
-  - intros r0. rewrite Hdk. destruct (N.eq_dec k (g_dk g)) as [E|E].
+  - intros r0. unfold phl. rewrite Hdk. destruct (N.eq_dec k (g_dk g)) as [E|E].
     + rewrite <- E, getm_setm_same. auto.
-    + rewrite getm_setm_other by auto. destruct (Hne E) as [-> _]. apply (gi_phle _ _ G).
+    + rewrite getm_setm_other by auto. destruct (Hne E) as [-> [_ [_ [_ ->]]]]. apply (gi_phle _ _ G).
   - change (cnt (setm s k m')) with (cnt s). rewrite mgrs_setm. unfold sum_locked.
     rewrite (asumN_aset_in m_locked (mgrs s) k m m'); auto; [|apply (gi_wf_m _ _ G)].
     pose proof (gi_nlocked _ _ G) as P. unfold sum_locked in P. lia.
@@ -222,13 +222,13 @@ Lemma ginv_obs s s' g g' :
   GInv s g -> mgrs s' = mgrs s -> store s' = store s -> next s' = next s ->
   twheel s' = twheel s -> tlong s' = tlong s -> ewheel s' = ewheel s -> elong s' = elong s ->
   g_xt g' = g_xt g -> g_xe g' = g_xe g -> g_pend g' = g_pend g -> g_owe g' = g_owe g -> g_ph g' = g_ph g ->
-  g_pre g' = g_pre g -> g_dk g' = g_dk g -> g_lk g' = g_lk g -> g_dl g' = g_dl g ->
+  g_pre g' = g_pre g -> g_dk g' = g_dk g -> g_lk g' = g_lk g -> g_pw g' = g_pw g -> g_dl g' = g_dl g ->
   (n_locked (cnt s') + g_cl g' = n_locked (cnt s) + g_cl g)%Z ->
   (n_wait (cnt s') + g_cw g' = n_wait (cnt s) + g_cw g)%Z ->
   n_key (cnt s') = n_key (cnt s) ->
   GInv s' g'.
 Proof.
-  intros G E1 E2 E3 E4 E5 E6 E7 F1 F2 F3 F4 F5 F6 F7 F8 F9 C1 C2 C3.
+  intros G E1 E2 E3 E4 E5 E6 E7 F1 F2 F3 F4 F5 F6 F7 F8 Fpw F9 C1 C2 C3.
   assert (Hgm : forall k, getm s' k = getm s k) by (intros; unfold getm; rewrite E1; auto).
   assert (Hgl : forall r, getl s' r = getl s r) by (intros; unfold getl; rewrite E2; auto).
   assert (Htc : forall r, tcount s' g' r = tcount s g r) by (intros; unfold tcount; rewrite E4, E5, F1; auto).
@@ -238,7 +238,7 @@ Proof.
   constructor; rewrite ?E1, ?E2, ?E3, ?E4, ?E5, ?E6, ?E7; auto.
   - intros r l H. destruct (R r l H) as [A1 A2 A3 A4 A5 A6 A7 A8 A9 A10 A11].
     constructor; rewrite ?Hgm, ?Htc, ?Hec, ?E1, ?E3, ?E5, ?E7, ?F3, ?F4, ?F5, ?F6; auto.
-  - intros k m H. destruct (M k m H) as [B1 B2 B3 B4 B5 B6 B7 B8 B9 Bb B10].
+  - intros k m H. destruct (M k m H) as [B1 B2 B3 B4 B5 B6 B7 B8 B9 Bb B10 Bc].
     assert (P1 : phk g' k = phk g k) by (apply phk_eq; auto).
     assert (P3 : lkk g' k = lkk g k) by (apply lkk_eq; auto).
     assert (P2 : dlk g' k = dlk g k) by (unfold dlk; rewrite F7, F9; auto).
@@ -246,8 +246,8 @@ Proof.
     + intros Hl c Hc. rewrite Hgl. auto.
     + intros Hl q Hq items mp Hs id r H1. rewrite Hgl. eapply B10; eauto.
   - intros r H. rewrite Htc, Hec. auto.
-  - intros r H. rewrite Hgl. apply P. rewrite <- F5. auto.
-  - intros r. rewrite F5, F7, Hgm. auto.
+  - intros r H. rewrite Hgl, Fpw. apply P. rewrite <- F5. auto.
+  - intros r. unfold phl. rewrite F5, F7, Fpw, Hgm. apply PL.
   - lia.
   - lia.
   - lia.
@@ -265,7 +265,7 @@ Proof. intros G H1 H2 H3. eapply ginv_obs; eauto. Qed.
 Lemma wheels_ginv s s' g g' :
   GInv s g -> mgrs s' = mgrs s -> store s' = store s -> next s' = next s -> cnt s' = cnt s ->
   awf (twheel s') -> awf (tlong s') -> awf (ewheel s') -> awf (elong s') ->
-  g_ph g' = g_ph g -> g_dk g' = g_dk g -> g_lk g' = g_lk g -> g_dl g' = g_dl g -> g_cl g' = g_cl g -> g_cw g' = g_cw g ->
+  g_ph g' = g_ph g -> g_dk g' = g_dk g -> g_lk g' = g_lk g -> g_pw g' = g_pw g -> g_dl g' = g_dl g -> g_cl g' = g_cl g -> g_cw g' = g_cw g ->
   (forall r0 l0, aget (store s) r0 = Some l0 ->
      (tcount s' g' r0 + ecount s' g' r0 + occ r0 (g_pre g') + occ r0 (g_owe g)
       = tcount s g r0 + ecount s g r0 + occ r0 (g_pre g) + occ r0 (g_owe g'))%nat
@@ -278,7 +278,7 @@ Lemma wheels_ginv s s' g g' :
   (forall r0, aget (store s) r0 = None -> (tcount s' g' r0 + ecount s' g' r0)%nat = O) ->
   GInv s' g'.
 Proof.
-  intros G E1 E2 E3 E4 W3' W4' W5' W6' F5 F7 F8 F9 F10 F11 Hrec Hstr.
+  intros G E1 E2 E3 E4 W3' W4' W5' W6' F5 F7 F8 Fpw F9 F10 F11 Hrec Hstr.
   assert (Hgm : forall k, getm s' k = getm s k) by (intros; unfold getm; rewrite E1; auto).
   assert (Hgl : forall r, getl s' r = getl s r) by (intros; unfold getl; rewrite E2; auto).
   assert (Hsd : forall l, sumdepth s' l = sumdepth s l) by (intros; apply sumdepth_ext; intros; rewrite Hgl; auto).
@@ -289,15 +289,15 @@ Proof.
     constructor; rewrite ?Hgm, ?E1, ?E3, ?F5; auto.
     + lia.
     + intros Ht. destruct (A6 Ht) as [Q1 [Q2 [Q3 Q4]]]. auto.
-  - intros k m H. destruct (M k m H) as [B1 B2 B3 B4 B5 B6 B7 B8 B9 Bb B10].
+  - intros k m H. destruct (M k m H) as [B1 B2 B3 B4 B5 B6 B7 B8 B9 Bb B10 Bc].
     assert (P1 : phk g' k = phk g k) by (apply phk_eq; auto).
     assert (P3 : lkk g' k = lkk g k) by (apply lkk_eq; auto).
     assert (P2 : dlk g' k = dlk g k) by (unfold dlk; rewrite F7, F9; auto).
     constructor; rewrite ?P1, ?P2, ?P3, ?Hsd, ?E2, ?E3; auto.
     + intros Hl c Hc. rewrite Hgl. auto.
     + intros Hl q Hq items mp Hs id r H1. rewrite Hgl. eapply B10; eauto.
-  - intros r H. rewrite Hgl. apply P. rewrite <- F5. auto.
-  - intros r. rewrite F5, F7, Hgm. auto.
+  - intros r H. rewrite Hgl, Fpw. apply P. rewrite <- F5. auto.
+  - intros r. unfold phl. rewrite F5, F7, Fpw, Hgm. apply PL.
   - lia.
   - lia.
 Qed.
@@ -324,21 +324,22 @@ Lemma free_facts s g r l : GInv s g -> aget (store s) r = Some l -> l_refc l = 0
   /\ (l_key l <> g_dk g -> occ r (g_ph g) = O).
 Proof.
   intros G Hr H0 Ho. destruct (gi_rec _ _ G r l Hr) as [A1 A2 A3 A4 A5 A6 A7 A8 A9 A10 A11].
-  rewrite H0, Ho in A3. pose proof (gi_phle _ _ G r) as PL. rewrite occ_app in PL.
+  rewrite H0, Ho in A3. pose proof (gi_phle _ _ G r) as PL. unfold phl in PL.
   assert (Hne : l_key l <> g_dk g -> occ r (g_ph g) = O).
   { intros Hk. destruct (aget (mgrs s) (g_dk g)) as [md|] eqn:Em.
-    - destruct (holders_key_h s g _ md r l G Em Hr Hk) as [Z1 Z2]. rewrite (getm_some _ _ _ Em) in PL. lia.
-    - unfold getm in PL. rewrite Em in PL. simpl in PL. lia. }
-  assert (Hph : (occ r (g_ph g) <= occ r (holders (getm s (l_key l))) + occ r (m_wq (getm s (l_key l))))%nat).
-  { destruct (N.eq_dec (l_key l) (g_dk g)) as [E|E]; [rewrite E; lia|rewrite (Hne E); lia]. }
-  assert (Hp0 : occ r (g_pre g) = O) by lia.
+    - destruct (holders_key_h s g _ md r l G Em Hr Hk) as [Z1 Z2]. rewrite (getm_some _ _ _ Em) in PL.
+      destruct (g_pw g); lia.
+    - unfold getm in PL. rewrite Em in PL. simpl in PL. destruct (g_pw g); simpl in PL; lia. }
+  assert (Hph : (if g_pw g then occ r (g_ph g) <= occ r (m_wq (getm s (l_key l))) else occ r (g_ph g) <= occ r (holders (getm s (l_key l))))%nat).
+  { destruct (N.eq_dec (l_key l) (g_dk g)) as [E|E]; [rewrite E; destruct (g_pw g); lia|rewrite (Hne E); destruct (g_pw g); lia]. }
+  assert (Hp0 : occ r (g_pre g) = O) by (destruct (g_pw g); lia).
   assert (Hl0 : l_locked l = 0).
   { destruct (N.eq_dec (l_locked l) 0) as [|Hn]; auto. exfalso.
     assert (Hh : occ r (holders (getm s (l_key l))) = 1%nat) by (apply A7; auto; lia).
-    assert (Hi : In r (g_ph g)).
-    { apply occ_In. destruct (N.eq_dec (l_key l) (g_dk g)) as [E|E]; [|specialize (Hne E)]; lia. }
-    pose proof (gi_ph _ _ G r Hi) as Z. rewrite (getl_some _ _ _ Hr) in Z. lia. }
-  repeat split; auto; lia.
+    destruct (g_pw g) eqn:Epw; [lia|].
+    assert (Hi : In r (g_ph g)) by (apply occ_In; lia).
+    destruct (gi_ph _ _ G r Hi) as [Z _]. specialize (Z Epw). rewrite (getl_some _ _ _ Hr) in Z. lia. }
+  repeat split; auto; destruct (g_pw g); lia.
 Qed.
 
 Lemma holders_mref m x : holders (m <| m_ref := x |>) = holders m.  Proof. destruct m; reflexivity. Qed.
@@ -393,13 +394,13 @@ Proof.
   - intros k0 m0 H1. rewrite Hmg, aget_aset in H1.
     assert (Hold : exists mo, aget (mgrs s) k0 = Some mo /\ holders m0 = holders mo /\ m_wq m0 = m_wq mo
               /\ m_locked m0 = m_locked mo /\ m_cur m0 = m_cur mo /\ m_hq m0 = m_hq mo /\ m_locks m0 = m_locks mo
-              /\ m_ref m0 = (if k =? k0 then dec32 (m_ref mo) else m_ref mo)).
+              /\ m_ref m0 = (if k =? k0 then dec32 (m_ref mo) else m_ref mo) /\ m_wait m0 = m_wait mo).
     { destruct (k =? k0) eqn:E.
       - apply N.eqb_eq in E; subst k0. inversion H1; subst m0. exists m. unfold m'. rewrite holders_mref, m_wq_mref.
         destruct m; repeat split; auto.
       - exists m0. repeat split; auto. }
-    destruct Hold as [mo [Ho1 [Ho2 [Ho3 [Ho4 [Ho5 [Ho6 [Ho7 Ho8]]]]]]]].
-    destruct (gi_mgr _ _ G k0 mo Ho1) as [B1 B2 B3 B4 B5 B6 B7 B8 B9 Bb B10].
+    destruct Hold as [mo [Ho1 [Ho2 [Ho3 [Ho4 [Ho5 [Ho6 [Ho7 [Ho8 Ho9]]]]]]]]].
+    destruct (gi_mgr _ _ G k0 mo Ho1) as [B1 B2 B3 B4 B5 B6 B7 B8 B9 Bb B10 Bc].
     change (phk (g <| g_cw := (g_cw g - liveb l)%Z |>) k0) with (phk g k0).
     change (dlk (g <| g_cw := (g_cw g - liveb l)%Z |>) k0) with (dlk g k0).
     change (lkk (g <| g_cw := (g_cw g - liveb l)%Z |>) k0) with (lkk g k0).
@@ -425,13 +426,14 @@ Proof.
       destruct (B10 Hl q Hq items mp Hs id r1 H2) as [C1 [C2 C3]]. split; auto.
       assert (r1 <> r). { intros ->. rewrite (getl_some _ _ _ Hr) in C2. lia. }
       rewrite Hgl2; auto.
+    + rewrite Ho7, Ho9. auto.
   - intros r0 H1. rewrite Hst, aget_adel in H1. destruct (r =? r0) eqn:E.
     + apply N.eqb_eq in E; subst r0. change (tcount s g r + ecount s g r = 0)%nat. lia.
     + apply (gi_str _ _ G r0 H1).
-  - intros r0 H1. rewrite Hgl. apply (gi_ph _ _ G r0 H1).
-  - intros r0. cbn [g_ph g_dk]. change (g_ph (g <| g_cw := (g_cw g - liveb l)%Z |>)) with (g_ph g).
-    change (g_dk (g <| g_cw := (g_cw g - liveb l)%Z |>)) with (g_dk g).
-    destruct (Hlists (g_dk g)) as [L1 L2]. rewrite L1, L2. apply (gi_phle _ _ G).
+  - intros r0 H1. destruct (gi_ph _ _ G r0 H1) as [P1 P2]. rewrite Hgl. split; auto.
+    destruct (N.eq_dec r0 r) as [->|Hne]; [|rewrite Hgl2; auto].
+    unfold getl. rewrite Hst, aget_adel_same. reflexivity.
+  - intros r0. unfold phl. gs. destruct (Hlists (g_dk g)) as [L1 L2]. rewrite L1, L2. apply (gi_phle _ _ G).
   - change (cnt (setm s1 k m')) with (cnt s). rewrite Hmg. unfold sum_locked.
     rewrite (asumN_aset_in m_locked (mgrs s) k m m'); auto; [|apply (gi_wf_m _ _ G)].
     pose proof (gi_nlocked _ _ G) as P. unfold sum_locked in P.
@@ -445,7 +447,7 @@ Qed.
 
 Lemma mgr_ok_obs s s' g k m : store s' = store s -> next s' = next s -> mgr_ok s g k m -> mgr_ok s' g k m.
 Proof.
-  intros E2 E3 [B1 B2 B3 B4 B5 B6 B7 B8 B9 Bb B10].
+  intros E2 E3 [B1 B2 B3 B4 B5 B6 B7 B8 B9 Bb B10 Bc].
   assert (Hgl : forall r, getl s' r = getl s r) by (intros; unfold getl; rewrite E2; auto).
   assert (Hsd : forall l, sumdepth s' l = sumdepth s l) by (intros; apply sumdepth_ext; intros; rewrite Hgl; auto).
   constructor; rewrite ?Hsd, ?E2, ?E3; auto.
@@ -488,7 +490,7 @@ Proof.
   - intros k0 m0 H. rewrite Hmg, aget_adel in H. destruct (k =? k0) eqn:E; [discriminate|]. apply (mgr_ok_obs s); auto.
   - intros r. destruct (N.eq_dec (g_dk g) k) as [E|E].
     + destruct (Hdk (eq_sym E)) as [-> _]. simpl. lia.
-    + rewrite Hgm by auto. apply PL.
+    + unfold phl. rewrite Hgm by auto. apply PL.
   - change (cnt s') with (cnt s <| n_key := (n_key (cnt s) - 1)%Z |>). cbn [n_locked].
     rewrite Hmg. unfold sum_locked in *. pose proof (asumN_adel m_locked (mgrs s) k W1) as A. rewrite Hm in A.
     unfold ogetN in A. change (n_locked (cnt s <| n_key := (n_key (cnt s) - 1)%Z |>)) with (n_locked (cnt s)). lia.
@@ -528,8 +530,8 @@ Proof.
         intros r l Hr. pose proof (Hnk r l Hr) as Hk. apply N.eqb_neq in Hk. rewrite Hk. reflexivity.
     + apply (mgr_ok_obs s); auto.
   - intros r. destruct (N.eq_dec (g_dk g) k) as [E|E].
-    + rewrite E. destruct Hgk as [-> ->]. rewrite <- E. apply PL.
-    + rewrite Hgm by auto. apply PL.
+    + unfold phl. rewrite E. destruct Hgk as [-> ->]. rewrite <- E. apply PL.
+    + unfold phl. rewrite Hgm by auto. apply PL.
   - change (n_locked (cnt s')) with (n_locked (f (cnt s))). rewrite F1, Hmg. unfold sum_locked in *.
     pose proof (asumN_aset m_locked (mgrs s) k new_mgr W1) as A. rewrite Hm in A. unfold ogetN in A. change (m_locked new_mgr) with 0 in A. lia.
   - change (n_wait (cnt s')) with (n_wait (f (cnt s))). rewrite F2. auto.
@@ -553,7 +555,7 @@ Proof.
   { intros k. apply occ_notin. intros Hi. unfold getm in Hi. destruct (aget (mgrs s) k) as [m|] eqn:Em; [|simpl in Hi; auto].
     pose proof (mo_lt _ _ _ _ (gi_mgr _ _ G k m Em) r Hi). lia. }
   repeat split; auto. apply (gi_str _ _ G r Hn).
-  pose proof (gi_phle _ _ G r) as P. rewrite Hl in P. lia.
+  pose proof (gi_phle _ _ G r) as P. specialize (Hl (g_dk g)). rewrite occ_app in Hl. unfold phl in P. destruct (g_pw g); lia.
 Qed.
 
 Lemma add32_succ x : x + 1 < 4294967296 -> add32 x 1 = x + 1.
@@ -615,13 +617,13 @@ Proof.
   - intros k0 m0 H1. rewrite Hmg, aget_aset in H1.
     assert (Hold : exists mo, aget (mgrs s) k0 = Some mo /\ holders m0 = holders mo /\ m_wq m0 = m_wq mo
               /\ m_locked m0 = m_locked mo /\ m_cur m0 = m_cur mo /\ m_hq m0 = m_hq mo /\ m_locks m0 = m_locks mo
-              /\ m_ref m0 = (if k =? k0 then add32 (m_ref mo) 1 else m_ref mo)).
+              /\ m_ref m0 = (if k =? k0 then add32 (m_ref mo) 1 else m_ref mo) /\ m_wait m0 = m_wait mo).
     { destruct (k =? k0) eqn:E.
       - apply N.eqb_eq in E; subst k0. inversion H1; subst m0. exists m. unfold m'. rewrite holders_mref, m_wq_mref.
         destruct m; repeat split; auto.
       - exists m0. repeat split; auto. }
-    destruct Hold as [mo [Ho1 [Ho2 [Ho3 [Ho4 [Ho5 [Ho6 [Ho7 Ho8]]]]]]]].
-    destruct (gi_mgr _ _ G k0 mo Ho1) as [B1 B2 B3 B4 B5 B6 B7 B8 B9 Bb B10].
+    destruct Hold as [mo [Ho1 [Ho2 [Ho3 [Ho4 [Ho5 [Ho6 [Ho7 [Ho8 Ho9]]]]]]]]].
+    destruct (gi_mgr _ _ G k0 mo Ho1) as [B1 B2 B3 B4 B5 B6 B7 B8 B9 Bb B10 Bc].
     assert (Hni : ~ In r (holders mo ++ m_wq mo)).
     { intros Hi. pose proof (B3 r Hi). unfold r in *. lia. }
     constructor; rewrite ?Ho2, ?Ho3, ?Ho4, ?Hsd; auto.
@@ -643,9 +645,12 @@ Proof.
       destruct (B10 Hl q Hq items mp Hs id r1 H2) as [C1 [C2 C3]]. split; auto.
       assert (r1 <> r). { intros ->. unfold getl in C2. rewrite Fn in C2. simpl in C2. lia. }
       rewrite Hgl2; auto.
+    + rewrite Ho7, Ho9. auto.
   - intros r0 H1. rewrite Hst, aget_aset in H1. destruct (r =? r0) eqn:E; [discriminate|]. rewrite Htc, Hec. apply (gi_str _ _ G r0 H1).
-  - intros r0 H1. rewrite Hgl. apply (gi_ph _ _ G r0 H1).
-  - intros r0. destruct (Hlists (g_dk g)) as [L1 L2]. rewrite L1, L2. apply (gi_phle _ _ G).
+  - intros r0 H1. destruct (gi_ph _ _ G r0 H1) as [P1 P2]. rewrite Hgl. split; auto.
+    destruct (N.eq_dec r0 r) as [->|Hne]; [|rewrite Hgl2; auto].
+    unfold getl. rewrite Hst, aget_aset_same. reflexivity.
+  - intros r0. unfold phl. destruct (Hlists (g_dk g)) as [L1 L2]. rewrite L1, L2. apply (gi_phle _ _ G).
   - change (cnt (setm s1 k m')) with (cnt s). rewrite Hmg. unfold sum_locked.
     rewrite (asumN_aset_in m_locked (mgrs s) k m m'); auto; [|apply (gi_wf_m _ _ G)].
     pose proof (gi_nlocked _ _ G) as P. unfold sum_locked in P.
@@ -678,7 +683,7 @@ Proof.
     intros Hl Hp. destruct (Ht Hl Hp) as [-> ->]. apply A8; auto.
   - rewrite S3. destruct (l_key l =? g_dk g); lia.
   - rewrite S3, S7. auto.
-  - rewrite S3. intros Hi. pose proof (gi_ph _ _ G r Hi) as Z. rewrite (getl_some _ _ _ Hr) in Z. auto.
+  - rewrite S3, S4. intros Hi. pose proof (gi_ph _ _ G r Hi) as Z. rewrite (getl_some _ _ _ Hr) in Z. auto.
   - apply (gi_phle _ _ G).
   - unfold liveb. rewrite S4. lia.
 Qed.
@@ -710,20 +715,21 @@ Lemma setm_scalar s g k m m' :
 Proof.
   intros G Hm E1 E2 E3 E4 Hb Hk.
   destruct (holders_eq m m' E2 E3) as [Hh Hq]. pose proof (m_wq_eq m m' E4) as Hw.
-  destruct (gi_mgr _ _ G k m Hm) as [B1 B2 B3 B4 B5 B6 B7 B8 B9 Bb B10].
+  destruct (gi_mgr _ _ G k m Hm) as [B1 B2 B3 B4 B5 B6 B7 B8 B9 Bb B10 Bc].
   eapply setm_ginv; eauto; gs.
   - intros Hne. destruct Hk as [Hk|Hk]; [|congruence]. repeat split; auto. lia.
   - constructor; rewrite ?Hh, ?Hw, ?Hq, ?E1, ?E2, ?E3; auto.
     + unfold dlk in *. gs. change (sumdepth (setm s k m') (holders m)) with (sumdepth s (holders m)).
       destruct (k =? g_dk g) eqn:E; [lia|]. apply N.eqb_neq in E. destruct Hk as [Hk|Hk]; [|congruence]. lia.
     + split; [tauto|auto].
+    + rewrite E4. auto.
   - intros r0 l0 H0 Hk0. rewrite Hh, Hw. split; [lia|].
     destruct (gi_rec _ _ G r0 l0 H0) as [A1 A2 A3 A4 A5 A6 A7 A8 A9 A10 A11].
     rewrite Hk0, (getm_some _ _ _ Hm) in *. split.
     + intros Ht. destruct (A6 Ht) as [Q1 [Q2 [Q3 Q4]]]. auto.
     + auto.
   - apply (gi_ph _ _ G).
-  - intros ->. rewrite Hh, Hw. intros r0. pose proof (gi_phle _ _ G r0) as P. rewrite (getm_some _ _ _ Hm) in P. auto.
+  - intros ->. rewrite Hh, Hw. intros r0. pose proof (gi_phle _ _ G r0) as P. unfold phl in P. rewrite (getm_some _ _ _ Hm) in P. auto.
 Qed.
 
 Lemma updm_scalar s g k f :
@@ -742,7 +748,7 @@ Qed.
 Lemma mgr_ok_geq s g g' k m : g_ph g' = g_ph g -> g_dk g' = g_dk g -> g_lk g' = g_lk g -> g_dl g' = g_dl g ->
   mgr_ok s g k m -> mgr_ok s g' k m.
 Proof.
-  intros F5 F7 F8 F9 [B1 B2 B3 B4 B5 B6 B7 B8 B9 Bb B10].
+  intros F5 F7 F8 F9 [B1 B2 B3 B4 B5 B6 B7 B8 B9 Bb B10 Bc].
   assert (P1 : phk g' k = phk g k) by (apply phk_eq; auto).
   assert (P3 : lkk g' k = lkk g k) by (apply lkk_eq; auto).
   assert (P2 : dlk g' k = dlk g k) by (unfold dlk; rewrite F7, F9; auto).
@@ -760,7 +766,7 @@ Proof.
   destruct G as [W1 W2 W3 W4 W5 W6 L R M S P PL N1 N2 N3].
   constructor; auto.
   - intros r0 l0 H. destruct (R r0 l0 H) as [A1 A2 A3 A4 A5 A6 A7 A8 A9 A10 A11]. constructor; auto.
-  - intros k0 m0 H. destruct (M k0 m0 H) as [B1 B2 B3 B4 B5 B6 B7 B8 B9 Bb B10].
+  - intros k0 m0 H. destruct (M k0 m0 H) as [B1 B2 B3 B4 B5 B6 B7 B8 B9 Bb B10 Bc].
     assert (P1 : phk (g <| g_dk := k |>) k0 = []) by (unfold phk; gs; rewrite Hp; destruct (k0 =? k); auto).
     assert (P1' : phk g k0 = []) by (unfold phk; rewrite Hp; destruct (k0 =? g_dk g); auto).
     assert (P2 : dlk (g <| g_dk := k |>) k0 = 0%Z) by (unfold dlk; gs; rewrite Hd; destruct (k0 =? k); auto).
